@@ -286,17 +286,48 @@ def stopped_rule(ctx, crate):
     if not ctx.require(b is not None, "R06-5", "R06-5|anchor", "Job::all_members_stopped not found"):
         return
     ctx.analysed(b)
-    rets = {}
+    rets = {True: [], False: []}
+    other = []
+    functional = False
     for bi, si in b.defs.get(0, []):
         v = mir.const_bool(b.def_expr(bi, si))
-        facts = dom_facts(b, bi)
-        rets[v] = facts
-    ok_false = False in rets and any(a[0] == "call" and last_seg(a[1]) == "contains" and v is False and
-                                     any(flow.is_field_named(s, "pids_stopped") for s in mir.subexprs(a))
-                                     for a, v in rets[False])
-    ok_true = True in rets and any(a[0] == "discr" and v == "None" for a, v in rets[True])
-    ctx.ob("R06-5", b.path, "returns false exactly on a pid missing from pids_stopped, true after the whole scan",
-           ok_false and ok_true, key="R06-5|%s|shape" % b.path, crate=crate.kind)
+        if v is None:
+            # functional form: self.pids.iter().all(|p| self.pids_stopped.contains(p))
+            e = b.expand_vars(mir.strip_sites(b.def_expr(bi, si)))
+            fn_all = e[0] == "call" and last_seg(e[1]) == "all" and any(
+                flow.is_field_named(x, "pids") for x in mir.subexprs(e))
+            cl_ok = False
+            for cb in crate.closures_of(b.path):
+                for ci, cs in cb.defs.get(0, []):
+                    ce = cb.expand_vars(mir.strip_sites(cb.def_expr(ci, cs)))
+                    if ce[0] == "call" and last_seg(ce[1]) == "contains" and "pids_stopped" in render(ce):
+                        cl_ok = True
+            if fn_all and cl_ok:
+                functional = True
+            else:
+                other.append(bi)
+        else:
+            rets[v].append((bi, dom_facts(b, bi)))
+
+    def on_stopped(a):
+        return any(flow.is_field_named(s, "pids_stopped") for s in mir.subexprs(a))
+    # false: a member is missing from the stopped set (or the set is empty - no member of a live job can be in it)
+    ok_false = (functional or bool(rets[False])) and all(
+        any(a[0] == "call" and on_stopped(a) and ((last_seg(a[1]) == "contains" and v is False) or
+                                                  (last_seg(a[1]) == "is_empty" and v is True)) for a, v in facts)
+        for bi, facts in rets[False])
+    # true: only after the scan over the members has run to its end (never from a size comparison: pids_stopped keeps
+    # the pids of members that have died since)
+    ok_true = (functional or bool(rets[True])) and all(any(a[0] == "discr" and v == "None" and "next" in render(a) for a, v in facts)
+                                       for bi, facts in rets[True])
+    bad = [bi for bi, facts in rets[True] if not any(a[0] == "discr" and v == "None" and "next" in render(a) for a, v in facts)]
+    ctx.ob("R06-5", b.path, "returns false exactly on a pid missing from pids_stopped, true after the whole scan "
+                            "(%d true / %d false return(s))" % (len(rets[True]), len(rets[False])),
+           ok_false and ok_true and not other, key="R06-5|%s|shape" % b.path, crate=crate.kind,
+           where=b.loc((bad or other or [0])[0]),
+           detail=None if ok_false and ok_true and not other else
+           "a verdict that is not derived from the member scan (a count / emptiness shortcut): pids_stopped is not a subset "
+           "of pids once a stopped member has died, so the job is shown Stopped while a member still runs")
     j = crate.fn("jobc::mark_job_member_stopped")
     if ctx.require(j is not None, "R06-5", "R06-5|anchor2", "jobc::mark_job_member_stopped not found"):
         ctx.analysed(j)
